@@ -74,7 +74,7 @@ Pre(r) == regs[r]
 
 AccOps == {"Add", "Sub", "Mul", "Quo", "FMA", "Set", "SetPrec", "SetInt", "SetInt64", "SetUint64", "SetRat",
            "SetMantExp", "NewDecimal", "Parse10"}
-AccPid(w) == IF Ev.op \in AccOps THEN "C02" ELSE w.pid
+AccPid(w) == IF Ev.op \in AccOps THEN {"C02"} ELSE w.pid
 
 Aliased == /\ "z" \in DOMAIN Ev
            /\ \/ ("x" \in DOMAIN Ev /\ Ev.x = Ev.z) \/ ("y" \in DOMAIN Ev /\ Ev.y = Ev.z)
@@ -89,8 +89,8 @@ MisZ(w) ==
   ELSE IF Ev.out # w.out THEN {<<l, "C04", "outcome">>}
   ELSE LET g == Got(Ev.z)
        IN (IF w.out = "ok" /\ "value" \notin w.free /\ ~SameValue(g, w.d)
-           THEN {<<l, w.pid, "value">>} \cup (IF Aliased THEN {<<l, "C10", "value">>} ELSE {}) ELSE {})
-          \cup (IF w.out = "ok" /\ "acc" \notin w.free /\ g.acc # w.d.acc THEN {<<l, AccPid(w), "acc">>} ELSE {})
+           THEN {<<l, pp, "value">> : pp \in w.pid} \cup (IF Aliased THEN {<<l, "C10", "value">>} ELSE {}) ELSE {})
+          \cup (IF w.out = "ok" /\ "acc" \notin w.free /\ g.acc # w.d.acc THEN {<<l, pp, "acc">> : pp \in AccPid(w)} ELSE {})
           \cup (IF "prec" \notin w.free /\ g.prec # w.d.prec THEN {<<l, "C09", "prec">>} ELSE {})
           \cup (IF "mode" \notin w.free /\ g.mode # w.d.mode THEN {<<l, "C09", "mode">>} ELSE {})
 
@@ -195,17 +195,32 @@ TFMA ==
                        IN IF m.out = "ok" /\ SameValue(m.d, w.d) /\ m.d.acc = w.d.acc THEN {"FMA:same-as-mul-add"} ELSE {"FMA:differs-from-mul-add"}
                   ELSE {})
      IN StepDev(w, ModeTag \cup RoundTags(w) \cup ftag, {}, dev)
+(* Recorded finding D7 (known_findings.json): Sqrt multiplies x by an approximation of 1/sqrt(x) and rounds the   *)
+(* product, which is a second rounding: the result can be the OTHER p-digit neighbour of sqrt(x).  The deviation *)
+(* is named and bounded: precision, mode, sign, canonical form as specified and |result - sqrt(x)| < 1 ulp.      *)
+DevSqrtFaithful(x, g) ==
+  /\ x.form = "finite" /\ ~x.neg /\ Ev.out = "ok" /\ g.form = "finite" /\ g.prec >= 1
+  /\ Canonical(Ev.post[Ev.z])
+  /\ SqrtFaithful(x.dig, CoefExp(x), g.prec, g)
+
 TSqrt ==
   /\ IsEv("Sqrt")
   /\ LET z == Pre(Ev.z)  x == Pre(Ev.x)
          w == OpSqrt(z, x)
-         \* declarative double check on the OBSERVED root (squaring only)
-         decl == IF x.form = "finite" /\ ~x.neg /\ Ev.out = "ok" /\ Canonical(Ev.post[Ev.z]) /\ Got(Ev.z).prec >= 1
-                    /\ Got(Ev.z).form = "finite" /\ MisZ(w) = {}
-                 THEN LET g == Got(Ev.z)
-                      IN IF SqrtOK(x.dig, CoefExp(x), g.prec, g.mode, g) THEN {} ELSE {<<l, "C05", "declarative">>}
+         g == Got(Ev.z)
+         valueBad == \E t \in MisZ(w) : t[3] = "value"
+         \* declarative double check on the OBSERVED root (squaring only), when the operational layer accepted it
+         decl == IF x.form = "finite" /\ ~x.neg /\ Ev.out = "ok" /\ Canonical(Ev.post[Ev.z]) /\ g.prec >= 1
+                    /\ g.form = "finite" /\ ~valueBad
+                 THEN (IF SqrtOK(x.dig, CoefExp(x), g.prec, g.mode, g) THEN {} ELSE {<<l, "C05", "declarative">>})
                  ELSE {}
-     IN StepX(w, ModeTag \cup RoundTags(w) \cup {"Sqrt:" \o x.form}, decl)
+         dev == IF valueBad /\ DevSqrtFaithful(x, g) THEN "Dev_Sqrt_Faithful" ELSE ""
+         sq == IF x.form = "finite" /\ ~x.neg
+               THEN (IF SqrtParts(x.dig, CoefExp(x), 1).exact THEN {"Sqrt:perfect-square"} ELSE {"Sqrt:irrational"})
+                    \cup (IF IIsEven(x.exp) THEN {"Sqrt:even-exp"} ELSE {"Sqrt:odd-exp"})
+                    \cup (IF z.prec = 0 THEN {"Sqrt:prec0"} ELSE IF z.prec < x.prec THEN {"Sqrt:zprec<xprec"} ELSE IF z.prec = x.prec THEN {"Sqrt:zprec=xprec"} ELSE {"Sqrt:zprec>xprec"})
+               ELSE {}
+     IN StepDev(w, ModeTag \cup RoundTags(w) \cup {"Sqrt:" \o x.form} \cup sq, decl, dev)
 TNeg == IsEv("Neg") /\ Step(OpNeg(Pre(Ev.z), Pre(Ev.x)), ModeTag)
 TAbs == IsEv("Abs") /\ Step(OpAbs(Pre(Ev.z), Pre(Ev.x)), ModeTag)
 TSet == IsEv("Set") /\ LET w == OpSet(Pre(Ev.z), Pre(Ev.x)) IN Step(w, ModeTag \cup RoundTags(w))
@@ -213,7 +228,7 @@ TCopy == IsEv("Copy") /\ Step(OpCopy(Pre(Ev.z), Pre(Ev.x)), {})
 TSetPrec == IsEv("SetPrec") /\ LET w == OpSetPrec(Pre(Ev.z), Ev.p) IN Step(w, ModeTag \cup RoundTags(w))
 TSetMode == IsEv("SetMode") /\ Step(OpSetMode(Pre(Ev.z), Ev.m), {})
 TSetInf == IsEv("SetInf") /\ Step(OpSetInf(Pre(Ev.z), Ev.neg), {})
-TNew == IsEv("New") /\ Step(Outcome("ok", ZeroValue, {}, "C08"), {})
+TNew == IsEv("New") /\ Step(Outcome("ok", ZeroValue, {}, {"C08"}), {})
 
 TSetInt64 ==
   /\ IsEv("SetInt64")
@@ -231,6 +246,31 @@ TMantExp ==
      ELSE StepX(OpMantExp(Pre(Ev.z), Pre(Ev.x)), {},
                 IF Ev.out = "ok" /\ IFromStr(Ev.ret.exp) # MantExpRet(Pre(Ev.x)) THEN {<<l, "C20", "ret">>} ELSE {})
 
+TSetBitsExp ==
+  /\ IsEv("SetBitsExp")
+  /\ LET z == Pre(Ev.z)
+         ws == [i \in 1..Len(Ev.words) |-> FromStr(Ev.words[i])]
+         pobs == Ev.post[Ev.z].prec
+         w == OpSetBitsExp(z, ws, IFromStr(Ev.e), DW, pobs)
+         g == Got(Ev.z)
+         \* precision-0 receiver: whatever precision results, the slice must be stored without rounding
+         extra == IF z.prec = 0 /\ Ev.out = "ok" /\ g.form = "finite" /\ (g.acc # Exact \/ g.prec < 1) THEN {<<l, "C20", "prec0-rounded">>} ELSE {}
+     IN StepX(w, RoundTags(w) \cup {"SetBitsExp:len" \o (IF Len(ws) = 0 THEN "0" ELSE IF Len(ws) = 1 THEN "1" ELSE "n"),
+                                   "SetBitsExp:prec" \o (IF z.prec = 0 THEN "0" ELSE "n")}, extra)
+TSetBitsExpSelf ==
+  /\ IsEv("SetBitsExpSelf")
+  /\ LET w == OpSetBitsExpSelf(Pre(Ev.z), IFromStr(Ev.e), Ev.post[Ev.z].prec) IN Step(w, RoundTags(w))
+(* BitsExp: the returned pair denotes exactly the magnitude: 0.words * 10^exp *)
+TBitsExp ==
+  /\ IsEv("BitsExp")
+  /\ LET x == Pre(Ev.x)
+         ws == [i \in 1..Len(Ev.ret.words) |-> FromStr(Ev.ret.words[i])]
+         N == ConcatWords(ws, DW)
+     IN Observe(IF x.form = "finite"
+                THEN /\ N # Zero /\ StripTZ(N) = x.dig
+                     /\ IAddInt(IFromInt(Ev.ret.exp), Len(N) - DW * Len(ws)) = x.exp
+                ELSE Len(ws) = 0, "C20", {"BitsExp:" \o x.form})
+
 TCmp == IsEv("Cmp") /\ Observe(Ev.ret.v = CmpVal(Pre(Ev.x), Pre(Ev.y)), "C16", {"Cmp:" \o ToString(CmpVal(Pre(Ev.x), Pre(Ev.y)))})
 TPreds ==
   /\ IsEv("Preds")
@@ -240,7 +280,7 @@ TPreds ==
                 /\ r.prec = x.prec /\ r.mode = x.mode /\ r.acc = x.acc, "C16", {})
 
 CoreNext == TReset \/ TLoad \/ TAdd \/ TSub \/ TMul \/ TQuo \/ TFMA \/ TSqrt \/ TNeg \/ TAbs \/ TSet \/ TCopy \/ TSetPrec \/ TSetMode
-            \/ TSetInf \/ TNew \/ TSetInt64 \/ TSetUint64 \/ TNewDecimal \/ TSetMantExp \/ TMantExp \/ TCmp \/ TPreds
+            \/ TSetInf \/ TNew \/ TSetInt64 \/ TSetUint64 \/ TNewDecimal \/ TSetMantExp \/ TMantExp \/ TSetBitsExp \/ TSetBitsExpSelf \/ TBitsExp \/ TCmp \/ TPreds
 
 TraceInit == l = 1 /\ regs = <<>> /\ dgs = <<>> /\ bad = {} /\ cov = <<>>
 TraceNext == CoreNext
